@@ -282,3 +282,32 @@ Proof.
       cbn [map snd]. rewrite cut_line_norm by lia. reflexivity. }
   rewrite Et, <- map_app. apply all_lines_NLine.
 Qed.
+
+(* ... inside any ASCII record line (the file control record the library writes) *)
+Lemma cut_good_norm l c : good_line l -> 0 < c < 94 -> norm_line (firstn c l) = NLine (cut_line l c).
+Proof.
+  intros (Hl & Ha & _) Hc. assert (Ha' : asciib (firstn c l) = true) by now apply asciib_firstn.
+  unfold norm_line. cbv zeta. rewrite (rune_count_ascii _ Ha'), firstn_length, Hl.
+  replace (Nat.min c 94) with c by lia.
+  destruct (Nat.eqb_spec c 94); [lia|]. destruct (Nat.ltb_spec 94 c); [lia|]. reflexivity.
+Qed.
+
+Lemma lines_good_prefix le A l c : le_ok le -> Forall uline A -> good_line l -> c <= 94 ->
+  all_lines (read_lines (text_of le A ++ firstn c l)) = Some (A ++ tail_of l c).
+Proof.
+  intros Hle HA Hg Hc. pose proof Hg as (Hl & Hasc & Hnl & Hb). unfold read_lines.
+  assert (Ha : asciib (firstn c l) = true) by now apply asciib_firstn.
+  rewrite (chars_app_wf _ _ (wf_text_of le A Hle HA)), (chars_ascii _ Ha).
+  destruct (frame_ulines le A Hle HA (S1 (firstn c l)) 0) as [n' E].
+  rewrite <- (map_map snd norm_line), E, map_app, (map_norm_ulines A HA).
+  assert (Et : map norm_line (map snd (frame (S1 (firstn c l)) [] 0 n')) = map NLine (tail_of l c)).
+  { unfold tail_of. destruct (Nat.eqb_spec c 0) as [->|Hc0]; [reflexivity|].
+    destruct (Nat.eq_dec c 94) as [->|Hc94].
+    - rewrite firstn_all2 by lia. rewrite <- (app_nil_r (S1 l)).
+      rewrite (frame_full (S1 l) [] n' (good_full l Hg)), concat_S1. unfold emit. rewrite Hb.
+      cbn [frame Nat.ltb Nat.leb map snd]. rewrite (cut_line_all l Hl).
+      unfold norm_line. cbv zeta. now rewrite (rune_count_ascii l Hasc), Hl.
+    - rewrite frame_tail_short; [|now apply no_nl_firstn|rewrite firstn_length, Hl; lia].
+      cbn [map snd]. rewrite (cut_good_norm l c Hg) by lia. reflexivity. }
+  rewrite Et, <- map_app. apply all_lines_NLine.
+Qed.
